@@ -18,6 +18,16 @@ from .callrules import sites_of
 from .. import tables as T
 
 
+import re
+
+# tests that may stand between `for v in <neighbours of the new infection>` and the scheduling call
+ALLOWED_INNER = {
+    "_process_trans_SIR_": (r".*",),     # its exact enclosing conditions are checked in sir_guards
+    "_process_trans_SIS_Markov": (),
+    "_process_trans_SIS_nonMarkov_": (r"trans_delays\[\w+\]", r"trans_times"),
+}
+
+
 def _nm(x):
     return ast.Name(id=x, ctx=ast.Load())
 
@@ -100,6 +110,28 @@ def role_rule(repo, rep, hname, resched_required):
                                 any(isinstance(e, ast.Name) and e.id == it for e in n.targets[0].elts) \
                                 and isinstance(n.value, ast.Call) and n.value.args and short(n.value.args[0]) == "target":
                             okl = True
+            # every neighbour is offered the schedule: nothing but the handler's own stated tests may stand in between
+            if lp is not None:
+                cx = [c for c in walk_function(h.node) if any(n is s.node for n in ast.walk(c.stmt))
+                      and not isinstance(c.stmt, (ast.For, ast.If, ast.While))]
+                jumps = [n for n in ast.walk(lp) if isinstance(n, (ast.Continue, ast.Break))]
+                extra = []
+                if cx:
+                    inner_par = []
+                    seen_lp = False
+                    for par in cx[0].parents:
+                        if par is lp:
+                            seen_lp = True
+                            continue
+                        if seen_lp and isinstance(par, ast.If):
+                            inner_par.append(short(par.test, 400))
+                    extra = [t for t in inner_par if not any(re.fullmatch(pat, t) for pat in ALLOWED_INNER.get(hname, ()))]
+                okx = not jumps and not extra
+                rep.ob("H-role", okx, "%s: every neighbour of the newly infected node is considered; only the stated tests prune" % hname,
+                       func=h, node=jumps[0] if jumps else s.node,
+                       construct="%s: extra conditions %s, jumps %d" % (hname, extra, len(jumps)),
+                       detail="" if okx else "scheduling from the newly infected node skips some neighbours (%s%s): e.g. the infector is never "
+                       "offered a transmission back" % (extra, ", continue/break in the neighbour loop" if jumps else ""))
             rep.ob("H-role", ok and okl, "%s: newly infected node becomes the source of what it schedules" % hname,
                    func=h, node=s.node, construct="%s(source=%s, target=%s) in infection block over %s" % (
                        s.callee.name, short(src), short(tgt), short(lp.iter) if lp is not None else None),
@@ -119,6 +151,21 @@ def role_rule(repo, rep, hname, resched_required):
                "was already infected" % hname, func=h, node=h.node, construct="%d re-scheduling sites outside infection block" % outer,
                detail="" if outer else "re-scheduling happens only inside `if status[target]=='S'`: after an attempt on an "
                "infected target the pair is never tried again")
+
+
+def _precheck(rep, h, s, ctxs):
+    """A horizon pre-check in front of a Q.add may only compare the event time itself with Q.tmax
+    (myQueue.add filters by the absolute time; a pre-check on anything else can only lose events)."""
+    c = ctxs[id(s.node)]
+    tv = short(s.node.args[0])
+    for fx, pol in c.enclosing_conditions():
+        t = short(fx)
+        if "tmax" in t and isinstance(fx, ast.Compare):
+            ok = pol and short(fx.left) == tv and isinstance(fx.ops[0], (ast.Lt, ast.LtE)) and short(fx.comparators[0]).endswith("tmax")
+            rep.ob("H-guard", ok, "%s: the horizon pre-check of %s compares the event time itself" % (h.name, s.callee.name), func=h, node=s.node,
+                   construct="pre-check %s for event at %s" % (t, tv),
+                   detail="" if ok else "Q.add(%s, ...) is pre-filtered by `%s`, which is not a test of the event time: with tmin < 0 (or any "
+                   "offset) events that are due before tmax are never queued" % (tv, t))
 
 
 def sir_guards(repo, rep):
@@ -175,6 +222,7 @@ def sir_guards(repo, rep):
         c = ctxs[id(s.node)]
         if s.callee.name == "_process_rec_SIR_":
             nrec += 1
+            _precheck(rep, h, s, ctxs)
             ok = short(s.node.args[0]) == "rec_time[target]" and short(s.binding.get("node")) == "target"
             rep.ob("H-guard", ok, "_process_trans_SIR_: recovery of the infected node enqueued at its recovery time",
                    func=h, node=s.node, construct="Q.add(%s, _process_rec_SIR_, node=%s)" % (short(s.node.args[0]), short(s.binding.get("node"))),
@@ -272,6 +320,7 @@ def sis_markov_guards(repo, rep):
                                detail="" if seen_rt else "scheduling reads rec_time[target] before it is assigned on this path")
     for s in _sites_in(repo, h):
         if s.kind == "deferred" and s.callee.name == "_process_rec_SIS_" and s.via is None:
+            _precheck(rep, h, s, ctxs)
             c = ctxs[id(s.node)]
             ok = short(s.node.args[0]) == "rec_time[target]" and short(s.binding.get("node")) == "target"
             rep.ob("H-guard", ok, "_process_trans_SIS_Markov: recovery of the infected node enqueued at its recovery time",
@@ -385,6 +434,7 @@ def sis_nonmarkov_rules(repo, rep):
            node=rt[0] if rt else blk, construct=short(rt[0]) if rt else None, detail="" if okr else "rec_time[target] wrong")
     for s in _sites_in(repo, h):
         if s.kind == "deferred" and s.callee.name == "_process_rec_SIS_":
+            _precheck(rep, h, s, ctxs)
             ok = short(s.node.args[0]) == "rec_time[target]" and short(s.binding.get("node")) == "target" and _inside(s.node, blk)
             rep.ob("H-guard", ok, "_process_trans_SIS_nonMarkov_: recovery of the infected node enqueued at its recovery time",
                    func=h, node=s.node, construct="Q.add(%s, _process_rec_SIS_, node=%s)" % (short(s.node.args[0]), short(s.binding.get("node"))),
@@ -494,7 +544,7 @@ def _lead_for(repo, fxn_formal, F):
     return None
 
 
-def proto_rule(repo, rep, funcs):
+def proto_rule(repo, rep, funcs, floor=1):
     """<x>_fxn / <x>_args pairs: in assignments and in calls."""
     n = 0
     for name in funcs:
@@ -551,7 +601,7 @@ def proto_rule(repo, rep, funcs):
                        construct="%s: %s <- %s" % (F.name, p, short(e)),
                        detail="" if not cross else "tuple element `%s` lands on parameter `%s` of %s although it has a parameter `%s`" % (
                            e.id, p, F.name, e.id))
-    rep.floor("H-proto", "function/args pairs", n, 1)
+    rep.floor("H-proto", "function/args pairs", n, floor)
 
 
 def adapter_rule(repo, rep):
